@@ -59,3 +59,36 @@ package redis
 //@   ensures implies(scriptErr == nil, err == nil)
 //@   ensures implies(ok, scriptErr == nil && int64(scriptResp.(int64)) == 1)
 //@   modifies scriptResp, scriptErr, scriptCalls
+
+// ---------------------------------------------------------------------------------------------
+// C06: the cache store as seen by cacheNode. Ghost inputs of one read (rdsGetVal, rdsGetErr) and a log of writes.
+// A TTL of 0 seconds means "no expiry" to go-redis: every write requires seconds >= 1 (checked at every call site).
+// ---------------------------------------------------------------------------------------------
+//@ ghost var rdsGetVal string
+//@ ghost var rdsGetErr error
+//@ ghost var rdsWrites int
+//@ ghost var rdsLastKey string
+//@ ghost var rdsLastVal string
+//@ ghost var rdsLastSeconds int
+//@ ghost var rdsWriteErr error
+//@ ghost var rdsDels int
+//@ func (s *Redis) GetCtx
+//@   trusted
+//@   results val, err
+//@   ensures val == rdsGetVal && err == rdsGetErr
+//@   modifies nothing
+//@ func (s *Redis) SetexCtx
+//@   trusted
+//@   requires seconds >= 1
+//@   ensures rdsWrites == old(rdsWrites) + 1 && rdsLastKey == key && rdsLastVal == value && rdsLastSeconds == seconds && result == rdsWriteErr
+//@   modifies rdsWrites, rdsLastKey, rdsLastVal, rdsLastSeconds, rdsWriteErr
+//@ func (s *Redis) SetnxExCtx
+//@   trusted
+//@   results ok, err
+//@   requires seconds >= 1
+//@   ensures rdsWrites == old(rdsWrites) + 1 && rdsLastKey == key && rdsLastVal == value && rdsLastSeconds == seconds && err == rdsWriteErr
+//@   modifies rdsWrites, rdsLastKey, rdsLastVal, rdsLastSeconds, rdsWriteErr
+//@ func (s *Redis) DelCtx
+//@   trusted
+//@   ensures rdsDels == old(rdsDels) + 1
+//@   modifies rdsDels
